@@ -19,7 +19,7 @@ from . import relchecks as rc
 from . import relreplay
 from . import relcase
 from .relcase import abs_table, same_table, spec_table
-from .rel_props import T1, T12, SIMT, UNARY, ASSUME_REL, has_op, nt_rows, micro, MICRO_W2
+from .rel_props import T1, T12, SIMT, UNARY, ASSUME_REL, has_op, nt_rows, micro, MICRO_W2, MICRO_WP, MICRO_OO2, MICRO_OJ
 
 LAWS_ALL = ["DeclaredCols", "HistOK", "StepLaw"]
 
@@ -322,6 +322,7 @@ PLAN_C06 = {
     ],
     "emit": [
         dict(MICRO_W2, invariants=BUILDER_LAWS), dict(micro(2, 10), invariants=BUILDER_LAWS),
+        dict(MICRO_WP, invariants=BUILDER_LAWS), dict(MICRO_OO2, invariants=BUILDER_LAWS), dict(MICRO_OJ, invariants=BUILDER_LAWS),
         dict(what="BuilderMeaning/BuilderAcceptance + all 2-call sequences of extend / 2-assignment extend / select / drop / "
                   "order_rows, <= 1 row (sampled)",
              fams=["extend", "extend2", "cols", "order"], rows=1, steps=2, level=1, one_in=40, genbad=True, timeout=200,
@@ -921,6 +922,41 @@ def w_c07(args):
             if not ok:
                 return {"status": "violation", "nontrivial": True, "tag": name,
                         "detail": {"k": k, "form": name, "why": why, "composed": got, "sequential": want, "a": str(a), "b": str(b)}}
+        # a map of TWO pipelines (simultaneous substitution): b also reads a raw table T, which a may read too; T is
+        # replaced by "the first row of T" and mid by a - a's own T leaf must stay the raw table
+        others = sorted(t for t in b.get_tables().keys() if t != "mid")
+        if others:
+            T = others[0]
+            dT = b.get_tables()[T]
+            p2 = dT.order_rows(list(dT.column_names), limit=1)
+            try:
+                fr3 = dict(frames)
+                fr3["mid"] = mid
+                fr3[T] = p2.eval(frames)
+                want2 = abs_table(b.eval(fr3))
+            except Exception:  # noqa: BLE001
+                want2 = None
+                stats["map2_sequential_raised"] += 1
+            if want2 is not None:
+                descs_b = dict(b.get_tables())
+                for mname, m in (("{mid, T}", {"mid": a, T: p2}), ("{T, mid}", {T: p2, "mid": a})):
+                    forms2 = {"replace_leaves": lambda m=m: b.replace_leaves(m), "act_on": lambda m=m: b.act_on(m),
+                              "map >> b": lambda m=m: m >> b,
+                              "eval(map of pipelines)": lambda m=m: b.eval({**descs_b, **m})}
+                    for name, f in forms2.items():
+                        try:
+                            comp = f()
+                            if not hasattr(comp, "eval"):
+                                raise TypeError("composition returned %s" % type(comp).__name__)
+                            got = abs_table(comp.eval(frames))
+                            ok, why = same_table(got, want2, ordered=ordered)
+                        except Exception as ex:  # noqa: BLE001
+                            ok, why, got = False, "raised %s: %s" % (type(ex).__name__, str(ex)[:300]), None
+                        stats["compositions_map2"] += 1
+                        if not ok:
+                            return {"status": "violation", "nontrivial": True, "tag": "map2:" + name,
+                                    "detail": {"k": k, "form": name, "map": mname, "why": why, "composed": got, "sequential": want2,
+                                               "a": str(a), "b": str(b), "T": T}}
         # dom / cod of the composed arrow
         try:
             arr = arrow.DataOpArrow(a, free_table_key="t1") >> arrow.DataOpArrow(b, free_table_key="mid")
@@ -961,7 +997,12 @@ PLAN_C07 = {
              invariants=BUILDER_LAWS, timeout=200, **TB),
     ],
     "emit": [
-        MICRO_W2, micro(2, 10),
+        MICRO_W2, micro(2, 10), MICRO_WP, MICRO_OO2, MICRO_OJ,
+        dict(what="a later part reads the table an earlier part reads (extend z=o+1 | x=x+1, table t1 again, concat | inner join): "
+                  "every 3- and 4-call behaviour over all tables of <= 2 rows (cut after the extend: the suffix has two leaves, "
+                  "a map of two pipelines is substituted)",
+             fams=["extend", "stack1", "binary"], rows=2, steps=4, level=0, timeout=300, quota=(400, 1500), **TB),
+        dict(what="the same, 3 calls", fams=["extend", "stack1", "binary"], rows=2, steps=3, level=0, timeout=300, quota=(400, 1500), **TB),
         dict(what="all 2-call unary pipelines, one table, <= 1 row (sampled)", fams=UNARY, rows=1, steps=2, level=1, one_in=150, timeout=600, **TB),
     ],
     "sim": dict(what="random pipelines of 4 calls over 2 tables of <= 3 rows", num=(2000, 6000), rows=3, steps=4, **SIMT),
